@@ -37,6 +37,21 @@ __CPROVER_ensures(left > -INF || right < INF)
 void h_MPSgetRHS(void) { double l, r; havoc_ghosts(); w_MPSgetRHS(l, r); CANARY(); }
 #endif
 
+#ifdef INST_MPSgetRHS_rat
+/* rational twin: same contract.  For a row with a finite left side the RHS section carries the left side (a ranged row is
+ * written as an E row with RANGES = rhs - lhs and relies on RHS == lhs), else the finite right side; throw only for a free row */
+#define RFIN_LO(x) ((x) > -RAT_INF)
+#define RFIN_UP(x) ((x) < RAT_INF)
+long long w_MPSgetRHS_rat(long long left, long long right)
+__CPROVER_requires(g_throw_allowed == (!RFIN_LO(left) && !RFIN_UP(right)))
+__CPROVER_assigns()
+__CPROVER_ensures(RFIN_LO(left) ==> __CPROVER_return_value == left)
+__CPROVER_ensures((!RFIN_LO(left) && RFIN_UP(right)) ==> __CPROVER_return_value == right)
+__CPROVER_ensures(RFIN_LO(left) || RFIN_UP(right))
+;
+void h_MPSgetRHS_rat(void) { long long l, r; havoc_ghosts(); w_MPSgetRHS_rat(l, r); CANARY(); }
+#endif
+
 #ifdef INST_LPFwriteRow
 /* a non-ranged row is written as: coefficient list, ONE relation token, ONE number, newline; and the relation and the
  * number denote exactly [lhs, rhs] */
